@@ -343,6 +343,38 @@ PROPS['C04'] = dict(
     assumptions=COMMON_ASSUME + ['scope as stated in the property: no class with a redundant slot, bound names bound once and not used free'],
 )
 
+PROPS['C07'] = dict(
+    level='translation_validation',
+    module='SlotVerif.Props.C07',
+    suites=[dict(name='expl', variant='explanations', comparator='prf',
+                 quick=dict(count=1600, timeout=900), thorough=dict(count=60000, timeout=3000, set=dict(max_pairs=12)))],
+    rule='corr.proof: histories of add_syn_expr and union_justified (one fresh label per union) from the C01 generator '
+         '(3-cycles and longer, non-commuting generators, redundant slots, self-reference, binders); for every ordered pair of '
+         'tracked terms that eq reports equal (first 6; 12 in thorough) explain_equivalence is called under catch_unwind, the returned '
+         'DAG is walked through ProvenEqRaw::proof()/equ(), every node claim is exported as a pair of TERMS through get_syn_expr, and '
+         'to_string must not panic. The Lean checker (PC.checkNode, compiled) must accept every node: premise indices smaller than the '
+         'node, premise count matching the rule, and the claim derivable from the premises\' claims alone (for a leaf: from the asserted '
+         'equation carrying its label, as recorded by the harness from the history) by the verified-sound oracle; the root claim must '
+         'match the queried pair up to an injective renaming (Orc.instOf). non-trivial = at least one proof was checked; distinct = by '
+         'hash of the case line (which contains the proofs)',
+    explanation='Proof construction is not modelled; each returned proof is validated by a checker whose "yes" is proved to imply '
+                'derivability in the specification (checkDag_sound, explanation_valid), for DAGs of every size and every choice of '
+                'the heuristics. A node the checker does not accept with all three heuristics is reported as a violation (bad<i>) '
+                'unless the universe hit its size cap (und<i>, counted as inconclusive).',
+    trusted_base=['src/explain/* and the proof-carrying wrappers are not modelled; only returned proofs are judged',
+                  'Model/Spec.lean Cong is the specification of equality (shared with C01)',
+                  'get_syn_expr is used to turn the implementation\'s claims into terms (it is the documented observation point); '
+                  'the asserted equations and the queried pairs come from the harness\'s own history, not from the e-graph'],
+    assumptions=COMMON_ASSUME + [
+        'rule applications are not covered: a leaf created by a rewrite is stated over e-class arguments whose redundant slots are '
+        'filled with fresh names independently on both sides, so at term level it is an instance of the rule only modulo redundancy '
+        'facts the leaf does not carry; the suite uses justified unions of fully syntactic handles only',
+        'to_flat_string is not called: it recurses without bound on cyclic slot maps (src/explain/flat.rs map_slot) and overflows '
+        'the stack; it is not an observation point of the property',
+        'explanations build without the checks feature: with checks, assert_match_equation additionally demands a globally bijective '
+        'renaming, stricter than the property (finding F8, DESIGN.md)'],
+)
+
 PROPS['C20'] = dict(
     level='other',
     module='SlotVerif.Props.C20',
